@@ -13,6 +13,11 @@ import (
 func init() { checks["C07"] = checkC07 }
 
 func runCaseC07(kind string, spec json.RawMessage) (vx.Out, bool) {
+	if kind == "segmented" {
+		var s nsqd.SegmentSpec
+		json.Unmarshal(spec, &s)
+		return runBody(func() vx.Out { return nsqd.RunSegmented(s) }), true
+	}
 	if kind != "integrity" {
 		return vx.Out{}, false
 	}
@@ -23,7 +28,7 @@ func runCaseC07(kind string, spec json.RawMessage) (vx.Out, bool) {
 
 func checkC07(tier string) int {
 	rep := vx.NewReport("C07", tier, "exploration")
-	rep.Rule = "E5: product of body sets (all 256 one-byte bodies + all two-byte bodies over {LF,CR,NUL,0xFF,space,A} in one batch; protocol look-alikes; position-dependent patterns at sizes around every buffer / file / limit boundary up to max-msg-size) x publish path {PUB, DPUB, MPUB, HTTP /pub, /mpub text, /mpub binary} x queue path {memory, disk, disk with 64-byte files, REQ 0, REQ delayed, timeout redelivery, graceful restart} x transport {plain, snappy, deflate 1/6/9, TLS, TLS+snappy, TLS+deflate} x output buffer {default, none, 64, max without timeout} (+ a second channel), each run on a real nsqd with a consumer that really negotiates the transport. distinct = distinct (case, outcome) pairs"
+	rep.Rule = "E5: product of body sets (all 256 one-byte bodies + all two-byte bodies over {LF,CR,NUL,0xFF,space,A} in one batch; protocol look-alikes; position-dependent patterns at sizes around every buffer / file / limit boundary up to max-msg-size) x publish path {PUB, DPUB, MPUB, HTTP /pub, /mpub text, /mpub binary} x queue path {memory, disk, disk with 64-byte files, REQ 0, REQ delayed, timeout redelivery, graceful restart} x transport {plain, snappy, deflate 1/6/9, TLS, TLS+snappy, TLS+deflate} x output buffer {default, none, 64, max without timeout} (+ a second channel), each run on a real nsqd with a consumer that really negotiates the transport; plus every 4-byte length field of PUB / DPUB / MPUB arriving in two pieces (split after 1, 2, 3 bytes) with nothing, a message frame or a heartbeat sent to that connection in between. distinct = distinct (case, outcome) pairs"
 	rep.Assumptions = []string{"crypto/tls, snappy and flate are trusted", "max-msg-size is set to 65536 for the size sweep"}
 	paths := []string{"pub", "dpub", "mpub", "hpub", "hmpub", "hmpubbin"}
 	queues := []string{"mem", "disk", "disk64", "req0", "reqd", "timeout", "restart"}
@@ -67,6 +72,24 @@ func checkC07(tier string) int {
 			}
 		}
 	}
+	// a length field that arrives in two TCP segments while nsqd sends a frame (a message, a
+	// heartbeat) to that connection in between
+	nSeg := 0
+	for _, cmd := range []string{"pub", "dpub", "mpub"} {
+		fields := []int{0}
+		if cmd == "mpub" {
+			fields = []int{0, 1, 2, 3}
+		}
+		for _, f := range fields {
+			for split := 1; split <= 3; split++ {
+				for _, btw := range []string{"none", "message", "heartbeat"} {
+					jobs = append(jobs, caseJob{"segmented", mustJSON(nsqd.SegmentSpec{Cmd: cmd, Field: f, Split: split, Between: btw})})
+					nSeg++
+				}
+			}
+		}
+	}
+	rep.Extra["segmented_length_field_cases"] = nSeg
 	runCases(rep, jobs, 8)
 	rep.Extra["cases"] = len(jobs)
 	rep.Extra["bodies_per_small_batch"] = 292
